@@ -11,6 +11,7 @@ spent.  The same function runs natively (``native``) for replay.
 This is not the ``crosshair check`` CLI: no contracts, no short-circuiting,
 no symbolic clock (see DESIGN.md section 2).
 """
+import os
 import builtins
 import contextlib
 import inspect
@@ -175,6 +176,21 @@ def setup():
                 return isinstance(obj, types)
 
     core._PATCH_REGISTRATIONS[builtins.isinstance] = _isinstance
+
+    # (1b) CrossHair runs a full gc.collect() on every weakref dereference made by traced code "to make weak
+    # references deterministic".  Dispatcher/CallbackRegistry and WeakKeyDictionary dereference weakrefs constantly
+    # (measured: 55% of a shard's CPU).  Harness callables and devices are strongly held for the whole path, so
+    # the outcome of a dereference does not depend on collection timing: dereference directly.
+    if os.environ.get("VERIF_WEAKREF_GC", "0") != "1":
+        import weakref
+
+        def _ref_call(r):
+            if not isinstance(r, weakref.ref):
+                raise TypeError
+            with NoTracing():
+                return r()
+
+        core._PATCH_REGISTRATIONS[weakref.ref.__call__] = _ref_call
 
     # (2) Real: always a real-based symbolic float
     register_type(Real, lambda creator: builtinslib.RealBasedSymbolicFloat(creator.varname, float))
